@@ -467,6 +467,13 @@ def check_twins(run, scen, A, B, step):
         if not ties:
             cv = np.asarray(da.conditioning_values, dtype=float)
             for p in d["deps"]:
+                if d["deps"][p]["shape"] not in ("poly1", "scaled1"):
+                    # Three-parameter exponential / power shapes fitted to a handful of pairs are often
+                    # degenerate (seen: b = 1.8e-14, c = -5.8 vs b = 1.5e8, c = -22.9 for inputs that
+                    # differ by summation-order noise); no tolerance makes their comparison sound.
+                    # They are still held to the stand-alone reference on identical inputs (O3).
+                    run.count("o4_nonlinear_dependence_not_compared")
+                    continue
                 with np.errstate(all="ignore"):
                     a = np.asarray(da.conditional_parameters[p](cv), dtype=float)
                     b = np.asarray(db.conditional_parameters[p](cv), dtype=float)
